@@ -1021,7 +1021,7 @@ class Gen:
         rng = self.rng
         fams = {
             "unary": 6, "binary": 10, "reduce": 10, "cum": 4, "manip": 12, "index": 8, "linalg": 5,
-            "concat": 5, "create": 3, "misc": 6, "multi": 3, "rechunk": 4, "combo": 3, "random": 0,
+            "concat": 5, "create": 3, "misc": 6, "multi": 3, "rechunk": 4, "combo": 3, "random": 0, "castchain": 1,
         }
         fams.update(self.weights)
         fams = {k: v for k, v in fams.items() if v > 0}
@@ -1751,6 +1751,43 @@ class Gen:
         if form == "stack":
             return self._add({"op": "stack", "in": [i, i, y], "p": {"axis": rng.randint(0, a.ndim)}}) is not None
         return self._add({"op": "concat", "in": [i, y, i], "p": {"axis": rng.randrange(a.ndim)}}) is not None
+
+    def fam_castchain(self):
+        """Chain of single-input elementwise operations that ends in one whose result dtype differs from its
+        input's and for which converting the input early would lose information (comparison with a scalar,
+        signbit, abs/real/imag of complex): what map fusion (legacy and default) collapses into one task."""
+        rng = self.rng
+        i = self.pick_array(lambda v: v.dtype.kind in "ifc" and v.size > 0)
+        if i is None or rng.random() < 0.4:
+            i = self._add(self.new_leaf(ndim=rng.choice([1, 2, 2, 3]), dtype=rng.choice(["float64", "float64", "int64", "float32", "complex128", "int32"])))
+            if i is None:
+                return False
+        a = self._vals[i]
+        if a.size == 0 or a.dtype.kind not in "ifc":
+            return False
+        y = i
+        for _ in range(rng.randint(1, 2)):
+            r = rng.random()
+            if r < 0.4:
+                y = self._add({"op": rng.choice(["negative", "square", "positive"]), "in": [y], "p": {}})
+            else:
+                y = self._add({"op": rng.choice(["add", "multiply", "subtract"]), "in": [y], "p": {"scalar": rng.choice([2, 3]) if a.dtype.kind != "f" else rng.choice([2, 0.5, 2.5])}})
+            if y is None:
+                return False
+        k = a.dtype.kind
+        if k == "c":
+            last = {"op": rng.choice(["abs", "real", "imag"]), "in": [y], "p": {}}
+        elif k == "f" and rng.random() < 0.25:
+            last = {"op": "signbit", "in": [y], "p": {}}
+        else:
+            last = {"op": rng.choice(["greater", "less_equal", "equal", "not_equal", "less"]), "in": [y],
+                    "p": {"scalar": rng.choice([2, 3, 5]) if k == "i" else rng.choice([2, 2.5, -1.5, 0.5])}}
+        z = self._add(last)
+        if z is None:
+            return False
+        if rng.random() < 0.4:
+            z = self._add({"op": rng.choice(["logical_not", "positive"]) if self._vals[z].dtype.kind == "b" else "negative", "in": [z], "p": {}})
+        return z is not None
 
     def fam_rechunk(self):
         rng = self.rng
